@@ -525,6 +525,11 @@ func (h *c04Run) roundTrip1(ref []byte) (kind, what string, comp []byte) {
 	if !bytes.Equal(m, ref) {
 		return "roundtrip", fmt.Sprintf("DecompressToG1(Compress(P)) = %x, P = %x, compressed %x", m, ref, comp), comp
 	}
+	// decoding is a function of the encoding: the caller's buffer is left as it was (the
+	// same bytes are decoded again by whoever holds them: a retransmission, a stored record)
+	if !bytes.Equal(in, comp) {
+		return "roundtrip", fmt.Sprintf("DecompressToG1 modified the encoding it was given: %x became %x (decoding it again gives another point)", comp, in), comp
+	}
 	return "", "", comp
 }
 
@@ -556,6 +561,9 @@ func (h *c04Run) roundTrip2(ref []byte) (kind, what string, comp []byte) {
 	}
 	if !bytes.Equal(m, ref) {
 		return "roundtrip", fmt.Sprintf("DecompressToG2(Compress(P)) = %x, P = %x, compressed %x", m, ref, comp), comp
+	}
+	if !bytes.Equal(in, comp) {
+		return "roundtrip", fmt.Sprintf("DecompressToG2 modified the encoding it was given: %x became %x (decoding it again gives another point)", comp, in), comp
 	}
 	return "", "", comp
 }
